@@ -121,7 +121,8 @@ type Cfg struct {
 	Late  bool      `json:"late"`
 	Mode  int       `json:"mode"`
 	Lower bool      `json:"lower"`
-	Prog  Tok       `json:"prog"`
+	Prog  Tok       `json:"prog"` // the name the program appears under in help texts and completion (os.Args[0] or Self)
+	Self  bool      `json:"self"` // the name is given with Self(name, description) instead of coming from os.Args[0]
 	Desc  Tok       `json:"desc"`
 	Nodes []NodeCfg `json:"nodes"`
 	Opts  []OptCfg  `json:"opts"`
